@@ -528,4 +528,4 @@ def run_case(case: dict[str, Any]) -> Outcome:
 
 
 def main(chk: Check) -> None:
-    chk.explore("config_x_probes", cases, run_case, quick=900, thorough=20000)
+    chk.explore("config_x_probes", cases, run_case, quick=1800, thorough=20000)
